@@ -340,7 +340,13 @@ SCM_STRINGS = r"""
   (let* ((s (str-at len i)) (y (string->symbol s)))
     (if (not (= (string-length s) len)) (begin (display "SELFTEST-FAILED str-at") (newline)))
     (check-datum s (string-append "s" (number->string len)) W3 same? same? (lambda () (->expr s)))
-    (check-datum y (string-append "y" (number->string len)) W3 same? same? (lambda () (->expr y)))))
+    (check-datum y (string-append "y" (number->string len)) W3 same? same? (lambda () (->expr y)))
+    ;; how a symbol is tokenised depends on what surrounds it (delimiters, the dot of a dotted pair, the closing parenthesis of a
+    ;; vector): every symbol also as a later element of a list, as the cdr of a pair, and as an element of a vector
+    (let ((in-list (list 'x y 'z)) (in-cdr (cons y y)) (in-vec (vector y 'z)))
+      (check-datum in-list (string-append "yl" (number->string len)) W3 same? same? (lambda () (->expr in-list)))
+      (check-datum in-cdr (string-append "yd" (number->string len)) W3 same? same? (lambda () (->expr in-cdr)))
+      (check-datum in-vec (string-append "yv" (number->string len)) W3 same? same? (lambda () (->expr in-vec))))))
 (finish)
 """
 
@@ -1190,11 +1196,11 @@ def all_jobs(tier):
         tot = 20 ** ln
         step = 4000
         for lo in range(0, tot, step):
-            jobs.append({"space": "str", "variant": "opt", "len": ln, "lo": lo, "hi": min(tot, lo + step), "size": 2 * (min(tot, lo + step) - lo)})
+            jobs.append({"space": "str", "variant": "opt", "len": ln, "lo": lo, "hi": min(tot, lo + step), "size": 5 * (min(tot, lo + step) - lo)})
     for ln in range(0, 3 if quick else 4):
         tot = 20 ** ln
         for lo in range(0, tot, 2000):
-            jobs.append({"space": "str", "variant": "asan", "len": ln, "lo": lo, "hi": min(tot, lo + 2000), "size": 2 * (min(tot, lo + 2000) - lo)})
+            jobs.append({"space": "str", "variant": "asan", "len": ln, "lo": lo, "hi": min(tot, lo + 2000), "size": 5 * (min(tot, lo + 2000) - lo)})
     # --- reader agreement on all texts (asan, poisoning on)
     for ln in range(0, maxlen + 1):
         tot = len(ALPHA) ** ln
@@ -1549,7 +1555,7 @@ def main(tier, replay_path=None):
         "write-shared; every distinct text is read by the native and the (scheme read) reader and compared structurally "
         "(flonums by their 64 bits, any NaN for NaN; graphs: isomorphism for write-shared, equal unfoldings for write). Spaces: "
         "doubles = 2048 exponent fields x %d mantissa patterns x sign + all 65536 half-precision values + 10^k +-1ulp; every Unicode "
-        "scalar value as char / 1-char string / 1-char symbol; all strings and symbols of length <= %d over 20 characters; integer "
+        "scalar value as char / 1-char string / 1-char symbol; all strings and symbols of length <= %d over 20 characters, every such symbol also inside a list, in the cdr of a pair and in a vector; integer "
         "lattice, ratios, 1000-4000 bit integers and their negations/inexact images; 13x13 complex grid; bytevectors len 0-4 over 5 "
         "bytes; trees (see coverage.tree_families); rooted graphs of <= %d pair/vector nodes with every slot pointing to any node or "
         "an atom, kept only in canonical (first-visit) numbering so each isomorphism class is run once, plus list spines of <= %d "
